@@ -6,7 +6,12 @@ the property text) for every specification of the enumerated family and every
 size.  Clauses `split_cli*`: the split branch of `treetools transform` in a
 fresh process: sizes of the parts follow the reference, the parts in order
 reproduce the unsplit output of the same command, each part is a complete
-file (framing of the format, accepted by the reader of the format).
+file (framing of the format, accepted by the reader of the format).  The
+same with destination encodings other than UTF-8 (--dest-enc iso-8859-1,
+latin-1, utf-16) on treebanks with non-ASCII words: every part is decoded in
+the destination encoding and read back by the reader of the format *in that
+encoding*; the trees of part i must be the i-th slice (cut by the reference
+arithmetic) of the generated trees that survive the filter.
 """
 import os
 import re
@@ -20,7 +25,9 @@ RULE = ("spec_sizes: all specifications with 1 part (N# for N in 0..S, N% for N 
         "set, at most one rest is *valid* (two rest are generated as malformed), plus a malformed family; every size in "
         "SIZES; one evaluation = one (specification, size); non-trivial = distinct pair whose reference result is a list "
         "with a non-zero remainder to distribute or a rejection.  split_cli: one evaluation = one command line "
-        "(format, specification, with/without filter_by_length) on a generated export treebank of 5..7 sentences")
+        "(format, specification, with/without filter_by_length, destination encoding) on a generated export treebank "
+        "of 5..7 sentences; the cases with a destination encoding other than UTF-8 (and a UTF-8 control) use words with "
+        "non-ASCII characters, at least one in every part that has a tree")
 
 PERCENTS = [0, 1, 10, 29, 33, 50, 57, 58, 99, 100]
 
@@ -30,12 +37,15 @@ def BOUNDS(ctx):
         return {"P": 3, "S": 12, "sizes": list(range(0, 13)) + [100, 1000],
                 "abs_full": list(range(0, 13)), "pct_full": PERCENTS + [7, 150],
                 "abs_reduced": [0, 1, 2, 5, 12], "pct_reduced": PERCENTS,
-                "abs_4": [], "pct_4": [], "cli_cases": "5 formats x 3 specifications x filter on/off + rejections"}
+                "abs_4": [], "pct_4": [], "cli_cases": "5 formats x 3 specifications x filter on/off + 5 formats x (iso-8859-1, utf-16) x 1 specification "
+                             "x filter on or off (tigerxml: both) on non-ASCII words + tigerxml x (latin-1, utf-8) x "
+                             "filter on/off + rejections"}
     return {"P": 4, "S": 30, "sizes": list(range(0, 31)) + [100, 1000, 12345],
             "abs_full": list(range(0, 31)), "pct_full": PERCENTS + [7, 14, 28, 55, 56, 150],
             "abs_reduced": [0, 1, 2, 5, 12, 30], "pct_reduced": PERCENTS,
             "abs_4": [0, 1, 3, 30], "pct_4": [0, 29, 33, 50, 58, 100],
-            "cli_cases": "5 formats x 8 specifications x filter on/off + rejections"}
+            "cli_cases": "5 formats x 8 specifications x filter on/off + 5 formats x (utf-8, iso-8859-1, latin-1, utf-16, "
+                         "utf-16-le, cp1252) x 3 specifications x filter on/off on non-ASCII words + rejections"}
 
 
 SITES = {
@@ -104,61 +114,89 @@ def _xml_sentences(text):
     return re.findall(r"(?s)<s id=.*?</s>\n", text)
 
 
-def _run_unsplit(ctx, specs, fmt, filt):
-    key = (os.path.abspath(ctx.repo), lm.tg.spec_str({"l": "X", "c": specs}), fmt, filt)
+def _read_bytes(path):
+    with open(path, "rb") as fh:
+        return fh.read()
+
+
+def _decode(data, enc):
+    """text of a file written in encoding `enc` (None: not a file in that encoding)"""
+    if data is None:
+        return None
+    try:
+        return data.decode(enc)
+    except (UnicodeError, LookupError):
+        return None
+
+
+def _enc_args(enc):
+    return [] if enc == "utf-8" else ["--dest-enc", enc]
+
+
+def _run_unsplit(ctx, specs, fmt, filt, enc="utf-8"):
+    """(exit status, text decoded in `enc` or None, bytes or None, end of stderr) of the command without --split"""
+    key = (os.path.abspath(ctx.repo), lm.tg.spec_str({"l": "X", "c": specs}), fmt, filt, enc)
     if key not in _UNSPLIT:
         with lm.tempdir() as d:
             lm.write_text(os.path.join(d, "in.export"), lm.export_encode(specs))
-            args = ["transform", "in.export", "out", "--src-format", "export", "--dest-format", fmt]
+            args = ["transform", "in.export", "out", "--src-format", "export", "--dest-format", fmt] + _enc_args(enc)
             if filt:
                 args += FILTER
             rc, out, err = lm.run_cli(ctx, args, d)
-            text = lm.read_text(os.path.join(d, "out")) if os.path.exists(os.path.join(d, "out")) else None
-            _UNSPLIT[key] = (rc, text, err[-300:])
+            data = _read_bytes(os.path.join(d, "out")) if os.path.exists(os.path.join(d, "out")) else None
+            _UNSPLIT[key] = (rc, _decode(data, enc), data, err[-300:])
     return _UNSPLIT[key]
 
 
-def _read_back(ctx, fmt, text):
-    """snapshots of the trees the reader of `fmt` yields for `text`; raises what the reader raises"""
+def _read_back(ctx, fmt, data, enc="utf-8"):
+    """snapshots of the trees the reader of `fmt`, told the encoding `enc`, yields for a file with the bytes
+    `data`; raises what the reader raises"""
     with lm.tempdir() as d:
         p = os.path.join(d, "part")
-        lm.write_text(p, text)
-        opts = {"quiet": True}
-        trees = lm.read_file(ctx, fmt, p, **opts)
+        with open(p, "wb") as fh:
+            fh.write(data)
+        trees = list(getattr(ctx.mod("treeinput"), fmt)(p, enc, quiet=True))
         return [lm.plain_snapshot(t) for t in trees]
 
 
 def c_split_cli(ctx, w):
     specs, split, fmt, filt = w["specs"], w["split"], w["fmt"], w["filter"]
+    enc = w.get("enc", "utf-8")
     kept = [s for s in specs if not (filt and len(tg.spec_leaves(s)) < 2)]
     try:
         sizes = lm.ref_split(split, len(kept))
     except lm.Rejected:
         raise Skip()
-    rc0, unsplit, err0 = _run_unsplit(ctx, specs, fmt, filt)
+    rc0, unsplit, unsplit_bytes, err0 = _run_unsplit(ctx, specs, fmt, filt, enc)
     if rc0 != 0 or unsplit is None:
         raise Skip()           # the format cannot write this treebank at all: not a matter of splitting
     with lm.tempdir() as d:
         lm.write_text(os.path.join(d, "in.export"), lm.export_encode(specs))
         args = ["transform", "in.export", "out", "--split=" + split, "--src-format", "export", "--dest-format", fmt]
+        args += _enc_args(enc)
         if filt:
             args += FILTER
         rc, out, err = lm.run_cli(ctx, args, d)
         names = sorted(os.listdir(d))
-        parts = []
+        raw = []
         for i in range(len(sizes)):
             p = os.path.join(d, "out.%d" % i)
-            parts.append(lm.read_text(p) if os.path.exists(p) else None)
+            raw.append(_read_bytes(p) if os.path.exists(p) else None)
         extra = [n for n in names if n.startswith("out") and n not in ["out.%d" % i for i in range(len(sizes))]]
     if rc != 0:
         return ("exit status 0, parts of sizes %s" % sizes, {"rc": rc, "stderr": err[-300:]})
-    if any(p is None for p in parts) or extra:
+    if any(p is None for p in raw) or extra:
         return ("files out.0 .. out.%d" % (len(sizes) - 1), {"files": names})
+    # each part is a file in the destination encoding (as the unsplit output is)
+    parts = [_decode(p, enc) for p in raw]
+    for i, p in enumerate(parts):
+        if p is None:
+            return ("part %d is text in the destination encoding %s" % (i, enc), {"part": i, "bytes": repr(raw[i][:60])})
     # every tree in exactly one part, sizes as specified
     got_sizes = [_count_sentences(fmt, p) for p in parts]
     if got_sizes != sizes:
         return ({"sizes": sizes}, {"sizes": got_sizes})
-    # the parts in order reproduce the unsplit output; each part is a complete file
+    # the parts in order reproduce the unsplit output
     if fmt == "tigerxml":
         frame = _xml_frame(unsplit)
         if frame is None:
@@ -167,34 +205,43 @@ def c_split_cli(ctx, w):
         if "".join("".join(_xml_sentences(p)) for p in parts) != "".join(sents):
             return ("sentences of the parts in order == sentences of the unsplit output",
                     {"parts": [p[:200] for p in parts]})
+    else:
+        if "".join(parts) != unsplit:
+            return ("concatenation of the parts == unsplit output", {"parts": [p[:200] for p in parts],
+                                                                    "unsplit": unsplit[:400]})
+    # the reader of the format (told the destination encoding) accepts each part, and the trees of part i are the
+    # i-th slice of the trees we generated (those that survive the filter), the slices cut by the reference
+    # arithmetic.  Judged only if reader and writer of the format round-trip the *unsplit* file to the trees we
+    # generated (otherwise the format itself is broken: C03's business, e.g. the discobrackets index convention)
+    if fmt != "terminals":
+        expected = [lm.spec_snapshot(s_) for s_ in kept]
+        try:
+            whole = _read_back(ctx, fmt, unsplit_bytes, enc)
+        except Exception:
+            whole = None
+        if whole is not None and whole == expected:
+            k = 0
+            for i, (p, sz) in enumerate(zip(raw, sizes)):
+                try:
+                    got = _read_back(ctx, fmt, p, enc)
+                except Exception as e:
+                    return ("the %s reader accepts part %d (encoding %s)" % (fmt, i, enc),
+                            {"raised": "%s: %s" % (type(e).__name__, e), "starts": parts[i][:60]})
+                if got != expected[k:k + sz]:
+                    return ({"part": i, "trees read back": "generated trees %d..%d after the filter" % (k, k + sz - 1)},
+                            {"part": i, "n_read": len(got),
+                             "first difference": next((j for j, (x, y) in enumerate(zip(got, expected[k:k + sz]))
+                                                       if x != y), min(len(got), sz))})
+                k += sz
+    # each part is a complete file: framed like the unsplit file
+    if fmt == "tigerxml":
         k = 0
         for i, (p, sz) in enumerate(zip(parts, sizes)):
             exp = frame[0] + "".join(sents[k:k + sz]) + frame[1]
             k += sz
             if p != exp:
                 return ({"part": i, "complete file": "starts with %r, ends with %r" % (frame[0], frame[1])},
-                        {"part": i, "starts": p[:40], "ends": p[-20:]})
-    else:
-        if "".join(parts) != unsplit:
-            return ("concatenation of the parts == unsplit output", {"parts": [p[:200] for p in parts],
-                                                                    "unsplit": unsplit[:400]})
-    # the reader of the format accepts each part.  Judged only if reader and writer of the format round-trip the
-    # *unsplit* file to the trees we generated (otherwise the format itself is broken: C03's business, e.g. the
-    # discobrackets index convention)
-    if fmt != "terminals":
-        try:
-            whole = _read_back(ctx, fmt, unsplit)
-        except Exception:
-            whole = None
-        if whole is not None and whole == [lm.spec_snapshot(s_) for s_ in kept]:
-            got = []
-            for i, p in enumerate(parts):
-                try:
-                    got.extend(_read_back(ctx, fmt, p))
-                except Exception as e:
-                    return ("the %s reader accepts part %d" % (fmt, i), {"raised": "%s: %s" % (type(e).__name__, e)})
-            if got != whole:
-                return ("trees read from the parts == trees read from the unsplit file", {"n_read": len(got)})
+                        {"part": i, "starts": p[:60], "ends": p[-20:]})
     return None
 
 
@@ -245,8 +292,9 @@ def classify(clause, w, expected, observed):
                 return "percent-via-float"
         return None
     if clause == "split_cli" and w["fmt"] == "tigerxml":
-        if isinstance(observed, dict) and (("starts" in observed and not observed["starts"].startswith("<?xml"))
-                                           or "ParseError" in str(observed.get("raised"))):
+        # only parts that lack the frame of the format; a framed part the reader rejects (e.g. an XML declaration
+        # that disagrees with the bytes of the file) is a different violation
+        if isinstance(observed, dict) and "starts" in observed and not observed["starts"].startswith("<?xml"):
             return "tigerxml-parts-unframed"
     if clause == "split_cli_rejects" and _has_negative(w["split"]):
         return "negative-number-accepted"
@@ -302,7 +350,13 @@ def _nontrivial(spec, size):
     return "%s|%d" % (spec, size) if base != size else None
 
 
-def _treebank(ctx, k, continuous):
+WORDS_ASCII = ["der", "Hund", "bellt", "laut", "Haus", "sieht"]
+# every word has a character outside ASCII; WORDS_LATIN1 can be written in iso-8859-1 / latin-1 / cp1252
+WORDS_LATIN1 = [u"Gr\u00fc\u00dfe", u"schl\u00e4ft", u"Caf\u00e9", u"\u00f6ffnet", u"M\u00fcller", u"\u00c5se", u"gar\u00e7on"]
+WORDS_WIDE = WORDS_LATIN1 + [u"\u0141\u00f3d\u017a", u"\u65e5\u672c", u"\u03bb\u03cc\u03b3\u03bf\u03c2"]
+
+
+def _treebank(ctx, k, continuous, words=WORDS_ASCII):
     """k sentences, the 2nd and 5th with one token (so that the filter drops them)"""
     rng = ctx.rng
     out = []
@@ -312,7 +366,7 @@ def _treebank(ctx, k, continuous):
             sh = tg.random_shape(rng, n, discont=0.0 if continuous else 0.5)
             if not continuous or tg.shape_is_continuous(sh):
                 break
-        s = tg.spec_from_shape(sh, rng, words=["der", "Hund", "bellt", "laut", "Haus", "sieht"],
+        s = tg.spec_from_shape(sh, rng, words=words,
                                pos=["NN", "VB", "ART"], unary_p=0.2)
         s["sid"] = i + 1
         out.append(s)
@@ -334,6 +388,26 @@ def generate(ctx):
             for filt in (False, True):
                 i += 1
                 yield "split_cli", {"specs": specs, "split": split, "fmt": fmt, "filter": filt}, "cli%d" % i
+    # destination encodings other than UTF-8 (and UTF-8 as a control), words with non-ASCII characters
+    if ctx.quick:
+        enc_cases = [(fmt, enc, "2#_rest") for fmt in FORMATS for enc in ("iso-8859-1", "utf-16")]
+        enc_cases += [("tigerxml", "latin-1", "34%_33%_33%"), ("tigerxml", "utf-8", "1#_0#_rest")]
+        filters = {"tigerxml": (False, True)}
+    else:
+        enc_cases = [(fmt, enc, split) for fmt in FORMATS
+                     for enc in ("utf-8", "iso-8859-1", "latin-1", "utf-16", "utf-16-le", "cp1252")
+                     for split in ("2#_rest", "34%_33%_33%", "1#_0#_rest")]
+        filters = {}
+    banks = {}
+    for n, (fmt, enc, split) in enumerate(enc_cases):
+        wide = enc.startswith("utf")
+        if (fmt, wide) not in banks:
+            banks[(fmt, wide)] = _treebank(ctx, 6 if ctx.quick else 7, continuous=(fmt == "brackets"),
+                                           words=WORDS_WIDE if wide else WORDS_LATIN1)
+        for filt in filters.get(fmt, (bool((n // 2 + n) % 2),)) if ctx.quick else (False, True):
+            i += 1
+            yield "split_cli", {"specs": banks[(fmt, wide)], "split": split, "fmt": fmt, "filter": filt,
+                                "enc": enc}, "cli%d" % i
     specs = _treebank(ctx, 3, True)
     for split in ["4#", "2#_2#", "101%", "2#_rest_rest", "-1#_rest", "2#_", "3", "-50%_rest"]:
         yield "split_cli_rejects", {"specs": specs, "split": split, "fmt": "export"}, "rej" + split
